@@ -94,7 +94,14 @@ func (p *pump) read(seq uint16) {
 	rm := p.s.Remotes[1]
 	h, pl := hk.Shape(0, rm.Info.SSRC, seq, uint32(seq)*90)
 	_ = h.SetExtension(hk.TwccExtID, []byte{byte(seq >> 8), byte(seq)})
-	_, _, _ = rm.ReadRTP(hk.MarshalRTP(h, pl))
+	raw := hk.MarshalRTP(h, pl)
+	if seq%64 == 5 {
+		// a padding-only packet (bandwidth probe) with a sequence number of its own
+		hp := h
+		hp.Padding, hp.PaddingSize = true, 4
+		raw = hk.MarshalRTP(hp, nil)
+	}
+	_, _, _ = rm.ReadRTP(raw)
 }
 
 // op applies one workload operation. Every packet operation advances the virtual clock by 1 ms, so the
